@@ -157,6 +157,9 @@ class Report:
             if r["instances"] < r.get("min_instances", 0):
                 raise_analysis(f"rule {name} matched {r['instances']} instances, fewer than the {r['min_instances']} confirmed by hand")
         replay = None
+        stale = os.path.join(EVIDENCE_DIR, f"{self.prop}.replay.json")
+        if not violations and os.path.exists(stale):
+            os.remove(stale)
         if violations:
             os.makedirs(EVIDENCE_DIR, exist_ok=True)
             replay = os.path.join(EVIDENCE_DIR, f"{self.prop}.replay.json")
